@@ -469,7 +469,12 @@ theorem readFragment_spec : ∀ (n : Nat) (p : P), 2 * p.mu + 3 ≤ n →
             have hin := (readInline_spec n p2 (hfu p2 lty)).trans lty
             cases t with
             | none => exact fin _ hin
-            | some t => cases t <;> first | exact fin _ hin | exact fin (some _, p2) lty
+            | some t =>
+              cases t <;> dsimp only <;>
+                first
+                | exact fin _ hin
+                | exact fin (some _, p2) lty
+                | (split <;> first | exact fin _ hin | exact fin (some _, p2) lty)
         · split
           · exact fin _ (readInline_spec n p1 (hfu p1 (Le.refl p1)))
           · exact fin _ (readFragRef_le cm hnum tok p1)
